@@ -123,26 +123,35 @@ func (muxer *Muxer) process() {
 			continue
 		}
 
-		if !packSequenceHeader{
-			muxer.muxMetadataTag()
-			muxer.vp.PacketizeSequenceHeader()
-			muxer.ap.PacketizeSequenceHeader()
-			packSequenceHeader = true
-		}
-		
-		frame := f.(*codec.Frame)
+		muxer.processFrame(f.(*codec.Frame), &packSequenceHeader)
+	}
+}
 
-		switch frame.MediaType {
-		case codec.MediaTypeVideo:
-			if err := muxer.vp.Packetize(frame); err != nil {
-				muxer.logger.Errorf("flvmuxer: muxVideoTag error - %s", err.Error())
-			}
-		case codec.MediaTypeAudio:
-			if err := muxer.ap.Packetize(frame); err != nil {
-				muxer.logger.Errorf("flvmuxer: muxAudioTag error - %s", err.Error())
-			}
-		default:
+// processFrame 处理一帧；一帧引起的 panic 只丢弃这一帧，不能让转换 routine 退出
+func (muxer *Muxer) processFrame(frame *codec.Frame, packSequenceHeader *bool) {
+	defer func() {
+		if r := recover(); r != nil {
+			muxer.logger.Errorf("flvmuxer routine panic；r = %v \n %s", r, debug.Stack())
 		}
+	}()
+
+	if !*packSequenceHeader {
+		muxer.muxMetadataTag()
+		muxer.vp.PacketizeSequenceHeader()
+		muxer.ap.PacketizeSequenceHeader()
+		*packSequenceHeader = true
+	}
+
+	switch frame.MediaType {
+	case codec.MediaTypeVideo:
+		if err := muxer.vp.Packetize(frame); err != nil {
+			muxer.logger.Errorf("flvmuxer: muxVideoTag error - %s", err.Error())
+		}
+	case codec.MediaTypeAudio:
+		if err := muxer.ap.Packetize(frame); err != nil {
+			muxer.logger.Errorf("flvmuxer: muxAudioTag error - %s", err.Error())
+		}
+	default:
 	}
 }
 
